@@ -20,6 +20,10 @@ def main():
     src, pid, name = a[0], a[1], a[2]
     cross = '--cross' in a
     flags = a[a.index('--flags') + 1].split() if '--flags' in a else []
+    mt = os.path.join(src, 'meta.txt')
+    if not flags and os.path.exists(mt):
+        first = open(mt, errors='replace').readline().strip()
+        if first.upper().startswith('FLAGS:'): flags = first.split(':', 1)[1].split()
     only = a[a.index('--checks') + 1].split(',') if '--checks' in a else None
     copy = tempfile.mkdtemp(prefix='verif_seed_')
     evdir = os.path.join(ROOT, 'evidence'); keep = tempfile.mkdtemp(prefix='verif_ev_keep_')
